@@ -837,6 +837,14 @@ pub fn update_with_monitors(w: &mut World, psbt: &mut Psbt, i: usize, plan: Opti
         Some(pl) => {
             guard(w, "Plan::update_psbt_input", "coord", |_| pl.update_psbt_input(&mut psbt.inputs[i]));
             w.stats.probe("plan_update_psbt_input");
+            // the same update again must change nothing
+            if w.mon.on("C14") {
+                let mut again = psbt.inputs[i].clone();
+                guard(w, "Plan::update_psbt_input(again)", "coord", |_| pl.update_psbt_input(&mut again));
+                if again != psbt.inputs[i] {
+                    raise(w, "C14", "I7-idempotent", format!("Plan::update_psbt_input applied twice gives a different input than applied once: {}", w.env.inputs[i].spec.text), "coord");
+                }
+            }
         }
     }
     if w.mon.on("C14") {
